@@ -116,3 +116,147 @@ func fpWriteJSON(w http.ResponseWriter, body string) {
 	w.WriteHeader(http.StatusOK)
 	_, _ = w.Write([]byte(body))
 }
+
+// ---------------------------------------------------------------------------------------------------------------
+// Response variants: everything a Prometheus-compatible server may legally vary in a successful query / query_range
+// response - the order of the keys of the top-level object, of "data" and of every sample object, insignificant
+// whitespace, optional members (stats, warnings, infos), and the formatting of numbers (sample values are JSON
+// strings holding a float, timestamps are JSON numbers with up to millisecond precision).
+
+type fpVariant struct {
+	TopOrder    int  // 0: status,data  1: data,status
+	DataOrder   int  // permutation index of (resultType, result, stats)
+	SampleOrder int  // 0: metric first  1: value(s) first
+	Space       int  // 0: compact  1: spaces after separators  2: newlines + indentation
+	Stats       bool // include "stats"
+	Warnings    int  // 0: none  1: "warnings"  2: "warnings" and "infos" (before data when TopOrder == 1)
+	ValueFmt    int  // 0: shortest ("1")  1: "1.0"-like fixed  2: exponent ("1e+00")
+	TsFmt       int  // 0: shortest  1: always three decimals
+}
+
+func fpVariantFrom(h uint64) fpVariant {
+	pick := func(n uint64) int { v := int(h % n); h /= n; return v }
+	return fpVariant{TopOrder: pick(2), DataOrder: pick(6), SampleOrder: pick(2), Space: pick(3), Stats: pick(3) != 0,
+		Warnings: pick(3), ValueFmt: pick(3), TsFmt: pick(2)}
+}
+
+func (v fpVariant) String() string {
+	return fmt.Sprintf("top=%d data=%d sample=%d space=%d stats=%v warnings=%d value=%d ts=%d", v.TopOrder, v.DataOrder,
+		v.SampleOrder, v.Space, v.Stats, v.Warnings, v.ValueFmt, v.TsFmt)
+}
+
+func (v fpVariant) ts(ms int64) string {
+	if v.TsFmt == 1 {
+		return fmt.Sprintf("%d.%03d", ms/1000, ms%1000)
+	}
+	return fpTs(ms)
+}
+
+func (v fpVariant) val(vals []float64, i int) string {
+	f := 1.0
+	if vals != nil {
+		f = vals[i]
+	}
+	switch v.ValueFmt {
+	case 1:
+		s := strconv.FormatFloat(f, 'f', -1, 64)
+		if !strings.Contains(s, ".") {
+			s += ".0"
+		}
+		return s
+	case 2:
+		return strconv.FormatFloat(f, 'e', -1, 64)
+	}
+	return strconv.FormatFloat(f, 'f', -1, 64)
+}
+
+func (v fpVariant) sep() (comma, colon string) {
+	switch v.Space {
+	case 1:
+		return ", ", ": "
+	case 2:
+		return ",\n  ", " : "
+	}
+	return ",", ":"
+}
+
+// obj joins already rendered `"key":value` members in the given order
+func (v fpVariant) obj(members []string) string {
+	comma, _ := v.sep()
+	if v.Space == 2 {
+		return "{\n  " + strings.Join(members, comma) + "\n}"
+	}
+	return "{" + strings.Join(members, comma) + "}"
+}
+
+func (v fpVariant) member(key, value string) string {
+	_, colon := v.sep()
+	return `"` + key + `"` + colon + value
+}
+
+var fpDataPerms = [6][3]int{{0, 1, 2}, {0, 2, 1}, {1, 0, 2}, {1, 2, 0}, {2, 0, 1}, {2, 1, 0}}
+
+func (v fpVariant) envelope(resultType, result string) string {
+	comma, _ := v.sep()
+	_ = comma
+	parts := [3]string{v.member("resultType", `"`+resultType+`"`), v.member("result", result), ""}
+	if v.Stats {
+		parts[2] = strings.TrimPrefix(fpStats, ",")
+	}
+	var data []string
+	for _, i := range fpDataPerms[v.DataOrder] {
+		if parts[i] != "" {
+			data = append(data, parts[i])
+		}
+	}
+	top := []string{v.member("status", `"success"`), v.member("data", v.obj(data))}
+	if v.TopOrder == 1 {
+		top[0], top[1] = top[1], top[0]
+	}
+	var extra []string
+	if v.Warnings >= 1 {
+		extra = append(extra, v.member("warnings", `["fake server: this is only a warning"]`))
+	}
+	if v.Warnings >= 2 {
+		extra = append(extra, v.member("infos", `["fake server: an info annotation"]`))
+	}
+	if v.TopOrder == 1 {
+		top = append(extra, top...)
+	} else {
+		top = append(top, extra...)
+	}
+	return v.obj(top)
+}
+
+func (v fpVariant) array(items []string) string {
+	comma, _ := v.sep()
+	return "[" + strings.Join(items, comma) + "]"
+}
+
+func fpWriteMatrixV(w http.ResponseWriter, series []fpSeries, v fpVariant) {
+	items := make([]string, len(series))
+	for i, s := range series {
+		pts := make([]string, len(s.TsMs))
+		for j, ts := range s.TsMs {
+			pts[j] = v.array([]string{v.ts(ts), `"` + v.val(s.Vals, j) + `"`})
+		}
+		m := []string{v.member("metric", fpMetricJSON(s.Metric)), v.member("values", v.array(pts))}
+		if v.SampleOrder == 1 {
+			m[0], m[1] = m[1], m[0]
+		}
+		items[i] = v.obj(m)
+	}
+	fpWriteJSON(w, v.envelope("matrix", v.array(items)))
+}
+
+func fpWriteVectorV(w http.ResponseWriter, tsMs int64, series []fpSeries, v fpVariant) {
+	items := make([]string, len(series))
+	for i, s := range series {
+		m := []string{v.member("metric", fpMetricJSON(s.Metric)), v.member("value", v.array([]string{v.ts(tsMs), `"` + v.val(s.Vals, 0) + `"`}))}
+		if v.SampleOrder == 1 {
+			m[0], m[1] = m[1], m[0]
+		}
+		items[i] = v.obj(m)
+	}
+	fpWriteJSON(w, v.envelope("vector", v.array(items)))
+}
